@@ -1,4 +1,5 @@
 """registry of verification units: (library, class/profile, function) -> worker that returns JSON-able results."""
+import json
 import os
 import sys
 import time
@@ -88,6 +89,52 @@ INLINE_MODELS = [
 def unit_props(unit):
     lib = get_lib(unit[0])
     return lib.unit_props(unit[1], unit[2])
+
+
+def list_tags(unit):
+    """worker: property tags of the obligations this unit actually generates (symbolic execution only, nothing is
+    decided).  Used to select the units of a property: a unit belongs to every property one of its obligations is
+    tagged with, so no obligation is left without a check that decides it."""
+    if unit[0] == "frame":
+        return (unit, None)
+    os.environ["PYVC_LIST_ONLY"] = "1"
+    try:
+        from pyvc import extract, logic
+        from pyvc.contract import verify_function
+        logic.reset_names()
+        lib = get_lib(unit[0])
+        cls, fn = unit[1], unit[2]
+        con = lib.contracts[cls][fn]
+        prof = lib.profile(cls)
+        src = getattr(con, "source", None)
+        node = extract.load(src[0]).function(src[1], fn) if src else extract.load(prof["file"]).function(prof["cls"], fn)
+        res = verify_function(lib, cls, fn, node, con)
+        if res.unsupported:
+            return (unit, _last_known_tags(unit))
+        tags = set()
+        for o in res.obligations:
+            if o.get("kind") != "canary":
+                tags |= set(o.get("props", []))
+        return (unit, sorted(tags))
+    except Exception:
+        return (unit, _last_known_tags(unit))
+    finally:
+        os.environ.pop("PYVC_LIST_ONLY", None)
+
+
+_TAGS = {}
+
+
+def _last_known_tags(unit):
+    """a unit that can no longer be executed (unsupported construct after a change) keeps the tags it generated on the
+    tree the tag file was written from (checks/unit_tags.json, rewritten by mkmanifest.py): it stays a unit of those
+    properties and makes their checks undecided instead of silently dropping out"""
+    if not _TAGS:
+        try:
+            _TAGS.update(json.load(open(os.path.join(ROOT, "checks", "unit_tags.json"))))
+        except Exception:
+            _TAGS["__none__"] = []
+    return _TAGS.get("%s:%s.%s" % unit)
 
 
 def run_unit(arg):
